@@ -193,18 +193,33 @@ def classify(r):
     return r["status"]
 
 
-def run_group(low, g, tier, keep=False):
+def split_cells(g, tier):
+    """case-split groups (kind S): split=NAME:lo:hi runs one cell per value with -DNAME=<value>; qsplit=v1,v2 is the quick subset"""
+    sp = g.attrs.get("split")
+    if not sp:
+        return [None]
+    name, lo, hi = sp.split(":")
+    cells = list(range(int(lo), int(hi) + 1))
+    if tier == "quick" and g.attrs.get("qsplit"):
+        cells = [int(x) for x in g.attrs["qsplit"].split(",")]
+    return [(name, c) for c in cells]
+
+
+def run_group(low, g, tier, keep=False, cell=None):
     t0 = time.time()
-    gdir = os.path.join(low.dir, g.name)
+    gdir = os.path.join(low.dir, g.name + ("" if cell is None else ".%s_%s" % (cell[0], str(cell[1]).replace("-", "m"))))
     os.makedirs(gdir, exist_ok=True)
     tu = os.path.join(gdir, "tu.c")
     open(tu, "w").write(low.tu_text(g))
     a = g.attrs
     entry = "h_" + g.name
-    res = {"group": g.name, "family": low.tag, "kind": g.kind, "mode": g.mode, "props": g.props, "obligations": [], "status": "OK", "reason": "", "cmds": []}
+    gname = g.name + ("" if cell is None else "[%s=%d]" % cell)
+    cdefs0 = ["-D%s=%d" % cell] if cell else []
+    res = {"gdir": gdir, "cdefs": cdefs0, "group": gname, "family": low.tag, "kind": g.kind, "mode": g.mode, "props": g.props, "obligations": [], "status": "OK", "reason": "", "cmds": []}
     timeout = int(a.get("timeout", "150" if tier == "quick" else "1500"))
     inc = ["-I", os.path.join(ROOT, "harness"), "-I", os.path.join(ROOT, "tools/cxx2c"), "-I", low.dir, "-I", low.fam.dir]
-    cmd = ["goto-cc", "--function", entry, tu, "-o", os.path.join(gdir, "a.gb")] + inc + low.defs + ["-DVF_TIER_%s=1" % tier.upper()]
+    cdefs = ["-D%s=%d" % cell] if cell else []
+    cmd = ["goto-cc", "--function", entry, tu, "-o", os.path.join(gdir, "a.gb")] + inc + low.defs + cdefs + ["-DVF_TIER_%s=1" % tier.upper()]
     res["cmds"].append(" ".join(cmd))
     rc, out, err, _ = sh(cmd, cwd=gdir, timeout=300)
     if rc != 0:
@@ -279,7 +294,7 @@ def run_group(low, g, tier, keep=False):
     for r in results:
         st = classify(r)
         desc = r.get("description", "")
-        ob = {"id": "%s.%s.%s" % (low.tag, g.name, r["property"]), "desc": desc, "status": st,
+        ob = {"id": "%s.%s.%s" % (low.tag, gname, r["property"]), "desc": desc, "status": st,
               "loc": "%s:%s" % (r.get("sourceLocation", {}).get("file", "?"), r.get("sourceLocation", {}).get("line", "?")),
               "fn": r.get("sourceLocation", {}).get("function", "")}
         if desc.startswith("VACUITY"):
@@ -348,9 +363,9 @@ def value_to_assigns(path, v, out):
     # pointers and unknown values: left as initialised by the harness
 
 
-def scan_input_names(low, gdir):
+def scan_input_names(low, gdir, cdefs=()):
     inc = ["-I", os.path.join(ROOT, "harness"), "-I", os.path.join(ROOT, "tools/cxx2c"), "-I", low.dir, "-I", low.fam.dir]
-    rc, out, err, _ = sh(["gcc", "-E", "-P", "-DVF_SCAN=1", "-DVF_DECLS_ONLY=1"] + inc + low.defs + [os.path.join(gdir, "tu.c")], cwd=gdir, timeout=120, mem=False)
+    rc, out, err, _ = sh(["gcc", "-E", "-P", "-DVF_SCAN=1", "-DVF_DECLS_ONLY=1"] + inc + low.defs + list(cdefs) + [os.path.join(gdir, "tu.c")], cwd=gdir, timeout=120, mem=False)
     names = []
     for n in re.findall(r"VF_SCAN_INPUT\s+(\w+)\s*;", out):
         if n not in names:
@@ -384,14 +399,14 @@ def summarize_inputs(vals):
 
 
 # ------------------------------------------------------------------ native replay against the real C++ object code
-def native_build(low, g, gdir, inputs_h, sanitize=True, real=True):
+def native_build(low, g, gdir, inputs_h, sanitize=True, real=True, cdefs=()):
     """builds gdir/replay: harness (C) + runtime, linked against the real g++-compiled driver (real=True) or the lowered C bodies"""
     san = ["-fsanitize=address,undefined", "-fno-sanitize-recover=undefined"] if sanitize else []
     inc = ["-I", os.path.join(ROOT, "harness"), "-I", os.path.join(ROOT, "tools/cxx2c"), "-I", low.dir, "-I", low.fam.dir]
     tu = os.path.join(gdir, "tu.c")
     open(os.path.join(gdir, "replay_inputs.h"), "w").write(inputs_h)
     objs = []
-    cc = ["gcc", "-std=gnu11", "-O0", "-g", "-w", "-DVF_NATIVE=1", "-DHARNESS=h_" + g.name] + san + inc + low.defs
+    cc = ["gcc", "-std=gnu11", "-O0", "-g", "-w", "-DVF_NATIVE=1", "-DHARNESS=h_" + g.name] + san + inc + low.defs + list(cdefs)
     cmd = cc + (["-DVF_DECLS_ONLY=1"] if real else []) + ["-include", os.path.join(gdir, "replay_inputs.h"), "-c", tu, "-o", os.path.join(gdir, "tu.o")]
     rc, out, err, _ = sh(cmd, cwd=gdir, timeout=300, mem=False)
     if rc != 0:
@@ -425,13 +440,13 @@ def inputs_header(names, vals):
     return "\n".join(h) + "\n"
 
 
-def native_replay(low, g, ob, gdir):
-    names, vals = extract_inputs(ob.get("trace", []), "h_" + g.name, scan_input_names(low, gdir))
+def native_replay(low, g, ob, gdir, cdefs=()):
+    names, vals = extract_inputs(ob.get("trace", []), "h_" + g.name, scan_input_names(low, gdir, cdefs))
     info = {"inputs": summarize_inputs(vals), "confirmed": False, "native_output": ""}
     if g.mode == "contract":
         info["native_output"] = "contract-mode group: inputs are created by the requires clauses; see stand-in"
         return info
-    exe, why = native_build(low, g, gdir, inputs_header(names, vals))
+    exe, why = native_build(low, g, gdir, inputs_header(names, vals), cdefs=cdefs)
     if not exe:
         info["native_output"] = why
         return info
@@ -509,10 +524,11 @@ def check_property(prop, tier, seed, keep=False, only_group=None, only_family=No
                 lowered.append(low)
                 for g in gs:
                     if when_ok(g, v):
-                        jobs.append((low, g, None))
+                        for cell in split_cells(g, tier):
+                            jobs.append((low, g, None, cell))
             # probes for listed known findings: does the witness class still fail?
             probe_lows = {}
-            for low, g, _ in list(jobs):
+            for low, g, _, cell in list(jobs):
                 for fid in g.knowns:
                     if fid in known:
                         key = (low.tag, fid)
@@ -522,9 +538,9 @@ def check_property(prop, tier, seed, keep=False, only_group=None, only_family=No
                             except Undecided as e:
                                 undecided.append(str(e))
                                 continue
-                        jobs.append((probe_lows[key], g, fid))
+                        jobs.append((probe_lows[key], g, fid, cell))
             jobs.sort(key=lambda j: -int(j[1].attrs.get("cost", "1")))
-            futs = {ex.submit(run_group, low, g, tier, keep): (low, g, fid) for low, g, fid in jobs}
+            futs = {ex.submit(run_group, low, g, tier, keep, cell): (low, g, fid) for low, g, fid, cell in jobs}
             for fu in cf.as_completed(futs):
                 low, g, fid = futs[fu]
                 try:
@@ -545,22 +561,22 @@ def check_property(prop, tier, seed, keep=False, only_group=None, only_family=No
                 if known[fid]["property"] != prop and prop not in known[fid]["also"] and prop != "all":
                     continue
                 if any(o["status"] == "FAILURE" for o in obs):
-                    msg = "KNOWN-FINDING: property=%s %s [id=%s group=%s.%s]" % (prop, known[fid]["what"], fid, r["family"], r["group"])
+                    msg = "KNOWN-FINDING: property=%s %s [id=%s]" % (prop, known[fid]["what"], fid)
                     if msg not in known_hits:
                         known_hits.append(msg)
                 elif r["status"] == "UNDECIDED":
                     undecided.append("probe %s %s.%s: %s" % (fid, r["family"], r["group"], r["reason"]))
                 else:
-                    lines.append("NOTE: known finding %s no longer reproduces in %s.%s" % (fid, r["family"], r["group"]))
+                    lines.append("NOTE: witness class of known finding %s does not fail in %s.%s" % (fid, r["family"], r["group"]))
                 continue
             if r["status"] == "UNDECIDED":
                 undecided.append("%s.%s: %s" % (r["family"], r["group"], r["reason"]))
                 continue
             failed = [o for o in obs if o["status"] == "FAILURE"]
             if failed:
-                gdir = os.path.join(low.dir, g.name)
-                rp = os.path.join(ROOT, "replays", "%s.%s.%s.json" % (prop, r["family"], r["group"]))
-                rep = native_replay(low, g, failed[0], gdir)
+                gdir = r["gdir"]
+                rp = os.path.join(ROOT, "replays", "%s.%s.%s.json" % (prop, r["family"], re.sub(r"[^\w.=-]", "_", r["group"])))
+                rep = native_replay(low, g, failed[0], gdir, r.get("cdefs", ()))
                 standin = g.attrs.get("standin")
                 if not rep["confirmed"] and standin:
                     sg = [x for x in low.fam.groups if x.name == standin]
@@ -569,7 +585,7 @@ def check_property(prop, tier, seed, keep=False, only_group=None, only_family=No
                         sf = [o for o in sr["obligations"] if o["status"] == "FAILURE"]
                         rep["standin"] = {"group": standin, "status": sr["status"]}
                         if sf:
-                            srep = native_replay(low, sg[0], sf[0], os.path.join(low.dir, standin))
+                            srep = native_replay(low, sg[0], sf[0], sr["gdir"])
                             rep["standin"].update(srep)
                             rep["confirmed"] = srep["confirmed"]
                 doc = {"property": prop, "group": "%s.%s" % (r["family"], r["group"]), "kind": r["kind"], "mode": r["mode"],
